@@ -107,6 +107,34 @@ func c38strings(thorough bool) []string {
 			}
 		}
 	}
+	// Option-like users / hosts / containers (leading '-') in every combination
+	// with plain ones: the parsers and EnsureValid both police these, and
+	// "Parse accepted => valid" must hold wherever the two sites could disagree.
+	dashUsers := []string{"", "u", "-u", "-"}
+	dashHosts := []string{"h", "-h", "-oX=y", "--", "-"}
+	for _, u := range dashUsers {
+		for _, h := range dashHosts {
+			for _, p := range []string{"-", "22", "0"} {
+				for _, t := range []string{"p", "/p", "~/p", "12:x", "tcp:localhost:80", "unix:/abs.sock"} {
+					s := h + ":"
+					if u != "" {
+						s = u + "@" + s
+					}
+					if p != "-" {
+						s += p + ":"
+					}
+					add(s + t)
+				}
+			}
+			for _, t := range []string{"/p", "/~/p", "/C:\\p", ":tcp:localhost:80", ":unix:/s"} {
+				s := "docker://"
+				if u != "" {
+					s += u + "@"
+				}
+				add(s + h + t)
+			}
+		}
+	}
 	// Local forms (paths and bare forwarding endpoints).
 	for _, s := range []string{"/p", "p", "./p", "../p", "~/p", "~", "/a:b", "/", "/p/", "/p/../q", "//p", "/p q", "a/b:c", "/0:1"} {
 		add(s)
@@ -206,7 +234,7 @@ func TestC38(t *testing.T) {
 		return
 	}
 	strs := c38strings(vr.Thorough())
-	r.Rule(fmt.Sprintf("grammar product of %d strings ([user@]host:[port:]tail over users/hosts/port tokens/sync and forwarding tails; local paths and bare forwarding endpoints; docker:// forms over prefix case, user, container, tail) x kind {sync,fwd} x position {first,second} x %d DOCKER_* environments; non-trivial = url.Parse accepted the string (so validity and the round trip were judged), distinct by (env,kind,first,raw)", len(strs), len(c38envs)))
+	r.Rule(fmt.Sprintf("grammar product of %d strings ([user@]host:[port:]tail over users/hosts/port tokens/sync and forwarding tails; option-like (leading '-') users x hosts/containers in every combination with plain ones for SCP-style and docker forms; local paths and bare forwarding endpoints; docker:// forms over prefix case, user, container, tail) x kind {sync,fwd} x position {first,second} x %d DOCKER_* environments; non-trivial = url.Parse accepted the string (so validity and the round trip were judged), distinct by (env,kind,first,raw)", len(strs), len(c38envs)))
 	r.Assume("strings outside the stated grammar (longer paths, other characters) are not covered",
 		"runtime.GOOS is linux: the Windows-only exclusion of drive-letter paths from SCP detection is not exercised",
 		"the DOCKER_* environment is the same at both parses (Format with an empty prefix does not carry it)")
